@@ -357,8 +357,41 @@ fn c07_scratchpad_seq() {
 
 fn c07_union() {
     let c = new_ctx();
-    let what = choice(2);
-    if what == 0 {
+    let what = choice(3);
+    if what == 2 {
+        // one owner key names a transaction address and a scratchpad address (both are the hash of the owner's
+        // public key): a validly signed record of the other kind must never replace what is stored there
+        let tx1 = the_tx(2, 1, 2);
+        let tx2 = the_tx(2, 2, 2);
+        let key = NetworkAddress::from_transaction_address(tx1.address()).to_record_key();
+        let pad = pad_access::make(&sk(2), Counter(SymU::fresh("pad_counter")), b"pad", Some(&sk(2)));
+        let pad_key = pad.network_address().to_record_key();
+        check_bool("cross:setup_same_key_for_both_kinds", pad_key == key);
+        let txrec = |v: Vec<Transaction>| Record { key: key.clone(), value: try_serialize_record(&v, RecordKind::Transaction).unwrap().to_vec(), publisher: None, expires: None };
+        let padrec = Record { key: key.clone(), value: try_serialize_record(&pad, RecordKind::Scratchpad).unwrap().to_vec(), publisher: None, expires: None };
+        let tx_first = choice(2) == 0;
+        let pad_path = choice(2); // 0 replication, 1 client update of a held key
+        note(format!("cross-kind tx_first={tx_first} scratchpad_path={}", ["replication", "client-update"][pad_path]));
+        if tx_first {
+            let _ = block_on(c.node.store_replicated_in_record(txrec(vec![tx1.clone()])));
+            c.net.complete_writes();
+            let _ = if pad_path == 0 { block_on(c.node.store_replicated_in_record(padrec.clone())) } else { block_on(c.node.validate_and_store_record(padrec.clone())) };
+            c.net.complete_writes();
+            let _ = block_on(c.node.store_replicated_in_record(txrec(vec![tx2.clone()])));
+            c.net.complete_writes();
+            let stored: Option<Vec<Transaction>> = c.net.inner.store.borrow().get(&key).and_then(|r| try_deserialize_record(r).ok());
+            cover("cross_kind");
+            check_bool("cross:transaction_set_survives_scratchpad_delivery", stored.as_ref().map(|v| v.contains(&tx1)).unwrap_or(false));
+            check_bool("cross:transaction_set_still_grows_afterwards", stored.as_ref().map(|v| v.contains(&tx2) && v.len() == 2).unwrap_or(false));
+        } else {
+            c.net.hold(padrec.clone());
+            let _ = block_on(c.node.store_replicated_in_record(txrec(vec![tx1.clone()])));
+            c.net.complete_writes();
+            let stored: Option<Scratchpad> = c.net.inner.store.borrow().get(&key).and_then(|r| try_deserialize_record(r).ok());
+            cover("cross_kind");
+            check_bool("cross:scratchpad_survives_transaction_delivery", stored.map(|p| p.is_valid() && pad_access::payload_of(&p) == b"pad".to_vec()).unwrap_or(false));
+        }
+    } else if what == 0 {
         // transactions of owner 2: deliveries A = {tx1}, B = {tx2, forged tx3, foreign tx4} in either order
         let tx1 = the_tx(2, 1, 2);
         let tx2 = the_tx(2, 2, 2);
